@@ -815,10 +815,44 @@ def _shard(shard, nshards, tier, seed):
                                      'over': {dst[0]: x >> 8, dst[1]: x & 0xFF, 'F': cy, **({'SP': y} if src is None else {src[0]: y >> 8, src[1]: y & 0xFF})},
                                      'pokes': []}, '; '.join(d[:3]), tags={'part': 'D', 'pair': kinds[1], 'group': 'arith16'}, order=3 * 10**6 + 500)
             stats.counters['D_arith16'] += 1
+        # every value of every operand byte (displacements, immediates, jump offsets, address bytes) of every slot
+        seen_slots = set()
+        sweep = []
+        for code in finals[:1792]:
+            key = (code[0], code[1] if code[0] in (0xCB, 0xED, 0xDD, 0xFD) else None, code[3] if code[1] == 0xCB and code[0] in (0xDD, 0xFD) else None)
+            if key in seen_slots:
+                continue
+            seen_slots.add(key)
+            ref0 = z80ref_decode(code)
+            if ref0.length >= 2 and ref0.undoc not in ('prefix', 'ednop') and not (ref0.length == 2 and code[0] in (0xCB, 0xED)):
+                first = 2 if code[0] in (0xED, 0xDD, 0xFD) else 1
+                for pos in range(first, ref0.length):
+                    if code[0] in (0xDD, 0xFD) and code[1] == 0xCB and pos == 3:
+                        continue
+                    sweep.append((code, pos))
+        for ui, (code, pos) in core.shard_iter(sweep, shard, nshards):
+            for v in range(256):
+                c = list(code)
+                c[pos] = v
+                pair.reset(dregs)
+                pair.poke(0x8000, c)
+                d = pair.step()
+                stats.evaluations += 1
+                stats.transitions += 2
+                if d:
+                    stats.violation('D/{}/operand/{}'.format(kinds[1], ''.join('%02X' % b for b in c)),
+                                    {'part': 'D', 'machine': '48K', 'kinds': list(kinds), 'code': c, 'over': {}, 'pokes': []}, '; '.join(d[:3]),
+                                    tags={'part': 'D', 'pair': kinds[1], 'group': 'operand'}, order=3 * 10**6 + 700)
+            stats.counters['D_operand_sweep'] += 1
     if shard == 0:
         stats.sample({'part': 'A', 'init': 1, 'history': ['EI', 'DD'], 'final': 'FB (each of 3584 slot fillings)'})
         stats.sample({'part': 'B', 'program': 'LD SP,7F00; IM 2; LD A,7E; LD I,A; EI; <EI;HALT>; JP 7000', 't0': 69788, 'interrupts': True})
     return stats
+
+
+def z80ref_decode(code):
+    from ..refs import z80ref
+    return z80ref.decode(list(code) + [0] * 4, 0)
 
 
 def _writes_port(code):
@@ -846,7 +880,7 @@ def run(tier, seed):
                      'C pages internally, Python delegates paging to the tracer)',
                      'single-step run(start) ignores interrupts in Python by construction; interrupt timing is compared through run(start, stop, True) '
                      'and accept_interrupt()'],
-        required_guards=['D_arith16', 'D_table_units', 'C_tool_runs', 'B_runs', 'B_interrupt_taken', 'B_interrupts_im1', 'B_interrupts_im2', 'A_inner_states'],
+        required_guards=['D_operand_sweep', 'D_arith16', 'D_table_units', 'C_tool_runs', 'B_runs', 'B_interrupt_taken', 'B_interrupts_im1', 'B_interrupts_im2', 'A_inner_states'],
     )
     return stats, meta
 
